@@ -585,6 +585,18 @@ class Interp:
             if isinstance(node, ast.Compare) and any(isinstance(x, ast.Name) and x.id == tgt for x in ast.walk(node)) and node is not s:
                 raise Unmodelled("position-dependent branch inside a sweep loop")
         acc = hook["acc"]
+        # the accumulator is recognised structurally (the loop-carried variable), whatever it is called
+        stored = {x.id for st in s.body for x in ast.walk(st) if isinstance(x, ast.Name) and isinstance(x.ctx, ast.Store)}
+        stored |= {x.target.id for st in s.body for x in ast.walk(st) if isinstance(x, ast.AugAssign) and isinstance(x.target, ast.Name)}
+        loaded = {x.id for st in s.body for x in ast.walk(st) if isinstance(x, ast.Name) and isinstance(x.ctx, ast.Load)}
+        tn_ = {x.id for x in ast.walk(s.target) if isinstance(x, ast.Name)}
+        carried = sorted(x for x in stored & loaded if x in fr.env and x not in tn_ and not isinstance(fr.env[x], (VList, VSymList))
+                         and _read_before_write(s.body, x))
+        if acc not in carried:
+            if len(carried) == 1:
+                acc = carried[0]
+            else:
+                raise Unmodelled(f"sweep loop `for {norm(s.target)} in {norm(s.iter)[:40]}`: the accumulator is not the unique loop-carried variable ({carried})")
 
         def spec_call(fn, *a):
             """evaluate a specification function; size identifications it makes are not obligations of the code"""
@@ -710,6 +722,10 @@ class Interp:
         if isinstance(l, VStr) or isinstance(r, VStr):
             return VStr("")
         if self.lenient and (isinstance(l, VOpaque) or isinstance(r, VOpaque)):
+            if isinstance(op, (ast.Mult, ast.Div)) and isinstance(l, VTensor) and isinstance(r, VOpaque):
+                return VTensor(_scale(l.val, Coef.sym("untyped-scalar")), l.dtype)        # a run-time scalar factor: the shape is what matters here
+            if isinstance(op, ast.Mult) and isinstance(r, VTensor) and isinstance(l, VOpaque):
+                return VTensor(_scale(r.val, Coef.sym("untyped-scalar")), r.dtype)
             return VOpaque("untyped-expression")
         if isinstance(l, VInt) and isinstance(r, VInt):
             if isinstance(op, ast.Add):
@@ -833,13 +849,8 @@ class Interp:
                             raise Unmodelled("scalar / tensor")
                         return VTensor(_scale(t.val, c if isinstance(op, ast.Mult) else c.inv()), t.dtype)
                 a, b = l.dense(), r.dense()
-                if isinstance(op, ast.Mult) and a.ndim() == b.ndim() and a.ndim() <= 20:
-                    letters = "abcdefghijklmnopqrstuvwxyz"[:a.ndim()]
-                    n0 = len(self.sp.obligations)
-                    res = net.einsum(self.sp, f"{letters},{letters}->{letters}", [a, b])
-                    for ob in self.sp.obligations[n0:]:
-                        ob["ctx"] = "elementwise * of two tensors: " + ob["ctx"]
-                    return VTensor(res, l.dtype)
+                if isinstance(op, ast.Mult) and a.ndim() == b.ndim():
+                    return VTensor(net.mul_elementwise(self.sp, a, b), l.dtype)
                 raise Unmodelled("elementwise product of tensors")
         if isinstance(op, (ast.Add, ast.Sub)):
             if isinstance(l, VTensor) and isinstance(r, VTensor):
